@@ -42,7 +42,11 @@ def build_inputs(tier, rng):
         except UnicodeDecodeError:
             continue
         # the scanner harness reports code point columns: tokenize() computed offsets in code points of `text`
-        for kind, mt in feinputs.token_mutants(text, tk, rng, limit=per_seed, pairs=pairs):
+        # the hand-written feature seeds are small: all of their mutants, in every tier
+        lim = None if (name.startswith("feature/") and "operator-arity" not in name) or name.startswith("regression/") else per_seed
+        if "operator-arity" in name and tier == "quick":
+            lim = 8
+        for kind, mt in feinputs.token_mutants(text, tk, rng, limit=lim, pairs=pairs):
             nf = dict(files)
             nf[main] = mt.encode("utf-8")
             inputs.append(("mut:%s:%s" % (name, kind), nf, main))
